@@ -107,7 +107,7 @@ def specs(tier: str):
                     if not gast.well_formed(rules):
                         raise common.HarnessError("family produced an ill-formed grammar")
                     out.append(engine.Spec(rules, [g[0] for g in grp], ins, "zero", f"trivia({pack},{tv},n<={n},L={L})"))
-    return out + families.extra_specs("zero", tier)
+    return out + families.extra_specs("zero", tier) + families.skip_specs("zero", tier, full=True)
 
 
 def run(tier: str) -> int:
@@ -117,7 +117,7 @@ def run(tier: str) -> int:
         rule="start rule bodies: every expression with <= n nodes over {\"a\",\"b\",n,at,cp,na,sl} (helper packs P1-P5 give @ $ ! _ rules with sequences, repetitions, optionals, predicates and modifier nestings of depth 3-4), "
              "all unary operators and ~ |, x start-rule modifier x trivia configuration (none / WHITESPACE silent / non-silent / COMMENT two-element / both / choice body / one-char comment / both non-silent) "
              "x every input over {a,b}+trivia symbols up to length L, in all four modes against the reference model; start rules are batched 40 per grammar and failing cases are re-run on the isolated rule; "
-             "a case is non-trivial when the reference run backtracked (incl. giving back trivia) or returned pairs" + families.EXTRA_RULE_TEXT + " (zero counts are UNSPEC for the model: judged on 'no foreign exception' only)",
+             "a case is non-trivial when the reference run backtracked (incl. giving back trivia) or returned pairs" + families.EXTRA_RULE_TEXT + families.SKIP_RULE_TEXT + " (zero counts are UNSPEC for the model: judged on 'no foreign exception' only)",
         assumptions=["helper packs are fixed (five), not enumerated", "tags are not modelled"],
     )
 
